@@ -193,11 +193,18 @@ def _expand_combinator(prog, t, locals_, blocks, b, file_):
         if clo.get("k") == "const" or (clo.get("k") in ("copy", "move") and _closure_of(locals_, blocks, clo["l"]) is None):
             # a function item used as the callable (`.map_err(Error::from)`, a `fn` handed through a helper)
             fitem = _fn_item_of(locals_, blocks, clo)
-            if fitem is None or prog.by_key.get(fitem["fn_key"]) is None:
+            if fitem is None:
                 return None
-            g = prog.by_key[fitem["fn_key"]]
-            if not g.blocks:
-                return None
+            if prog.by_key.get(fitem["fn_key"]) is None:
+                # a function of another crate (`opt.map_or(0, Vec::len)`): the combinator is expanded all
+                # the same, the callable stays a call
+                g = _ExtFn.of(fitem)
+                if g is None:
+                    return None
+            else:
+                g = prog.by_key[fitem["fn_key"]]
+                if not g.blocks:
+                    return None
         else:
             if clo.get("k") not in ("copy", "move") or clo["p"]:
                 return None
@@ -282,6 +289,8 @@ def _expand_combinator(prog, t, locals_, blocks, b, file_):
         args.append({"k": "move", "l": a_l, "p": []})
     callee = {"key": g.key, "local": True, "path": g.path, "full": g.path, "name": g.name if fitem is not None else "{closure}",
               "closure_call": fitem is None} if g is not None else None
+    if isinstance(g, _ExtFn):
+        callee = {"path": g.path, "full": g.path, "name": g.name}
     if cbranch == "default":
         b_call = nb([assign(_jcopy(dest), {"k": "use", "x": _jcopy(dflt)})], {"k": "goto", "t": target})
     elif cbranch == "direct":
@@ -311,6 +320,39 @@ def _expand_combinator(prog, t, locals_, blocks, b, file_):
     blk["t"] = {"k": "switch", "x": {"k": "move", "l": d_l, "p": []}, "arms": [[vi_run, b_call]], "otherwise": b_other, "ln": ln,
                 "expanded": fj.get("path")}
     return new
+
+
+class _ExtFn:
+    """signature of a function item of another crate, read off its type text
+    `for<'a> fn(&'a std::vec::Vec<u8>) -> usize {std::vec::Vec::<u8>::len}`"""
+    def __init__(self, path, key, params, ret):
+        self.path, self.key, self.name = path, key, path.split("::")[-1]
+        self.locals = [{"t": ret, "k": "other"}] + [{"t": p_, "k": "other"} for p_ in params]
+        self.argc = len(params)
+        self.blocks = None
+
+    @staticmethod
+    def of(fitem):
+        import re
+        ty = fitem.get("ty", "")
+        m = re.match(r"^(?:for<[^>]*> )?(?:unsafe )?(?:extern \"[^\"]*\" )?fn\((.*)\)(?: -> (.*?))? \{.*\}$", ty)
+        if not m or "fn" not in fitem:
+            return None
+        params, depth, cur = [], 0, ""
+        for ch in m.group(1):
+            if ch in "<([":
+                depth += 1
+            elif ch in ">)]":
+                depth -= 1
+            if ch == "," and depth == 0:
+                params.append(cur.strip())
+                cur = ""
+            else:
+                cur += ch
+        if cur.strip():
+            params.append(cur.strip())
+        params = [re.sub(r"'\w+ ", "", p_) for p_ in params]
+        return _ExtFn(fitem["fn"], fitem.get("fn_key"), params, (m.group(2) or "()").strip())
 
 
 FN_CALLS = ("std::ops::FnOnce::call_once", "std::ops::FnMut::call_mut", "std::ops::Fn::call")
